@@ -291,6 +291,7 @@ func VerifC01_BoltV2Slow() {
 		body = append(body, d.Bytes()...)
 	}
 	verif.Havoc(rb) // the connection's read buffer is reused before the frame is forwarded
+	var replaced api.IoBuffer
 	switch verif.Choose("op", 4) {
 	case 0: // set (existing or new key, decided by the symbolic key byte)
 		k := verif.Str("k", 1)
@@ -320,7 +321,8 @@ func VerifC01_BoltV2Slow() {
 		verif.Cover("del")
 	case 2: // replace body
 		nb := verif.Bytes("nb", verif.Choose("nbl", 4))
-		xf.SetData(buffer.NewIoBufferBytes(nb))
+		replaced = buffer.NewIoBufferBytes(nb)
+		xf.SetData(replaced)
 		body = nb
 		verif.Cover("setdata")
 	default: // set then delete the same key
@@ -343,7 +345,13 @@ func VerifC01_BoltV2Slow() {
 		return
 	}
 	wire := append([]byte{}, out.Bytes()...)
-	// a retry encodes the same frame object again: it must come out the same
+	// a retry encodes the same frame object again: it must come out the same - also when the
+	// stream layer hands the frame its (replaced) body once more, as xStream.AppendData does on
+	// every attempt
+	if replaced != nil && verif.Choose("retry_sets_body_again", 2) == 1 {
+		xf.SetData(replaced)
+		verif.Cover("retry-setdata")
+	}
 	out2, err2 := boltv2Protocol{}.Encode(ctx, frame)
 	verif.Assert(err2 == nil && out2 != nil, "second encode of the same frame failed")
 	if out2 != nil {
